@@ -1,0 +1,28 @@
+//go:build verif
+
+// Machine-checked contracts for package code93 (comment-only; read by /verif/govc).
+package code93
+
+// ---- full ASCII mode (AIM USS-93 table): a character outside 0-9 A-Z space - . is spelled as one
+// of the four shift characters ($) (%) (/) (+) and a letter. The library writes the shift
+// characters as the runes U+00F1..U+00F4, i.e. the UTF-8 bytes C3 B1..B4. e93S = which shift
+// (0..3), e93L = the letter.
+//@ define e93W(c int) int = (c == 32 || c == 45 || c == 46 || (48 <= c && c <= 57) || (65 <= c && c <= 90)) ? 1 : 3
+//@ define e93S(c int) int = (c == 0) ? 1 : ((c <= 26) ? 0 : ((c <= 31) ? 1 : ((c <= 47) ? 2 : ((c == 58) ? 2 : ((c <= 96) ? 1 : ((c <= 122) ? 3 : 1))))))
+//@ define e93L(c int) int = (c == 0) ? 85 : ((c <= 26) ? (64 + c) : ((c <= 31) ? (38 + c) : ((c <= 47) ? (32 + c) : ((c == 58) ? 90 : ((c <= 63) ? (11 + c) : ((c == 64) ? 86 : ((c <= 95) ? (c - 16) : ((c == 96) ? 87 : ((c <= 122) ? (c - 32) : (c - 43))))))))))
+//@ specdef e93Off(a map[int]int, k int) int = (k <= 0) ? 0 : (e93Off(a, k-1) + e93W(a[k-1]))
+//@ define allASCII(s string) bool = forall k int :: 0 <= k && k < len(s) ==> s[k] < 128
+
+// C07 (Code 93 half, spelling only): ASCII text is accepted and spelled by the standard's table
+//@ func prepare
+//@   requires len(content) <= 20000000
+//@   ensures (result1 == nil) == allASCII(content)
+//@   ensures result1 == nil ==> len(result0) == e93Off(bytes(content), len(content)) && len(result0) <= 3 * len(content)
+//@   ensures result1 == nil ==> (forall k int :: 0 <= k && k < len(content) ==> 0 <= e93Off(bytes(content), k) && e93Off(bytes(content), k) + e93W(content[k]) <= len(result0))
+//@   ensures result1 == nil ==> (forall k int :: 0 <= k && k < len(content) && e93W(content[k]) == 1 ==> result0[e93Off(bytes(content), k)] == content[k])
+//@   ensures result1 == nil ==> (forall k int :: 0 <= k && k < len(content) && e93W(content[k]) == 3 ==> result0[e93Off(bytes(content), k)] == 195 && result0[e93Off(bytes(content), k) + 1] == 177 + e93S(content[k]) && result0[e93Off(bytes(content), k) + 2] == e93L(content[k]))
+//@   loop 1 invariant 0 <= iterpos() && iterpos() <= len(content) && len(result) == e93Off(bytes(content), iterpos()) && 0 <= len(result) && len(result) <= 3 * iterpos()
+//@   loop 1 invariant forall k int :: 0 <= k && k < iterpos() ==> content[k] < 128
+//@   loop 1 invariant forall k int :: 0 <= k && k < iterpos() ==> 0 <= e93Off(bytes(content), k) && e93Off(bytes(content), k) + e93W(content[k]) <= len(result)
+//@   loop 1 invariant forall k int :: 0 <= k && k < iterpos() && e93W(content[k]) == 1 ==> result[e93Off(bytes(content), k)] == content[k]
+//@   loop 1 invariant forall k int :: 0 <= k && k < iterpos() && e93W(content[k]) == 3 ==> result[e93Off(bytes(content), k)] == 195 && result[e93Off(bytes(content), k) + 1] == 177 + e93S(content[k]) && result[e93Off(bytes(content), k) + 2] == e93L(content[k])
